@@ -1055,29 +1055,40 @@ private:
     // UnboundedNoMaxLimit does not block or drop messages
     for (ThreadContext* thread_context : _active_thread_contexts_cache)
     {
-      if (thread_context->has_bounded_queue_type())
+      _check_failure_counter(thread_context, error_notifier);
+    }
+  }
+
+  /**
+   * Check for dropped messages of a single thread context - only when bounded queue is used
+   * @param thread_context thread context
+   * @param error_notifier error notifier
+   */
+  QUILL_ATTRIBUTE_HOT static void _check_failure_counter(
+    ThreadContext* thread_context, std::function<void(std::string const&)> const& error_notifier) noexcept
+  {
+    if (thread_context->has_bounded_queue_type())
+    {
+      size_t const failed_messages_cnt = thread_context->get_and_reset_failure_counter();
+
+      if (QUILL_UNLIKELY(failed_messages_cnt > 0))
       {
-        size_t const failed_messages_cnt = thread_context->get_and_reset_failure_counter();
+        char timestamp[24];
+        time_t now = time(nullptr);
+        tm local_time;
+        localtime_rs(&now, &local_time);
+        strftime(timestamp, sizeof(timestamp), "%X", &local_time);
 
-        if (QUILL_UNLIKELY(failed_messages_cnt > 0))
+        if (thread_context->has_dropping_queue())
         {
-          char timestamp[24];
-          time_t now = time(nullptr);
-          tm local_time;
-          localtime_rs(&now, &local_time);
-          strftime(timestamp, sizeof(timestamp), "%X", &local_time);
-
-          if (thread_context->has_dropping_queue())
-          {
-            error_notifier(fmtquill::format("{} Quill INFO: Dropped {} log messages from thread {}",
-                                            timestamp, failed_messages_cnt, thread_context->thread_id()));
-          }
-          else if (thread_context->has_blocking_queue())
-          {
-            error_notifier(
-              fmtquill::format("{} Quill INFO: Experienced {} blocking occurrences on thread {}",
-                               timestamp, failed_messages_cnt, thread_context->thread_id()));
-          }
+          error_notifier(fmtquill::format("{} Quill INFO: Dropped {} log messages from thread {}",
+                                          timestamp, failed_messages_cnt, thread_context->thread_id()));
+        }
+        else if (thread_context->has_blocking_queue())
+        {
+          error_notifier(
+            fmtquill::format("{} Quill INFO: Experienced {} blocking occurrences on thread {}",
+                             timestamp, failed_messages_cnt, thread_context->thread_id()));
         }
       }
     }
@@ -1404,6 +1415,10 @@ private:
 
     while (QUILL_UNLIKELY(found_invalid_and_empty_thread_context != std::end(_active_thread_contexts_cache)))
     {
+      // the thread has exited, nothing can be dropped from now on: report what it dropped since the
+      // last check before its counter disappears with the context
+      _check_failure_counter(*found_invalid_and_empty_thread_context, _options.error_notifier);
+
       // if we found anything then remove it - Here if we have more than one to remove we will
       // try to acquire the lock multiple times, but it should be fine as it is unlikely to have
       // that many to remove
